@@ -60,6 +60,8 @@ type State struct {
 	imprecise bool
 	allocs  []*Term
 	effects []string
+	sha1s   []shaApp
+	bencNext Value // value the next bencode.DecodeBytes yields (registered by vBencode)
 	primary int  // object id of the first stream created on this path (vStreamPos observes it)
 	stubbed bool // the path went through an adversarial stub (cut, bencode adversary, nondet error): no native counterpart
 }
@@ -139,7 +141,7 @@ func (ex *Exec) namedVar(name string, s Sort) *Term {
 }
 
 func (st *State) clone() *State {
-	n := &State{heap: make(map[int]*Obj, len(st.heap)), consumed: st.consumed, imprecise: st.imprecise, stubbed: st.stubbed, primary: st.primary}
+	n := &State{heap: make(map[int]*Obj, len(st.heap)), consumed: st.consumed, imprecise: st.imprecise, stubbed: st.stubbed, primary: st.primary, bencNext: st.bencNext}
 	for k, v := range st.heap {
 		n.heap[k] = v
 	}
@@ -148,6 +150,7 @@ func (st *State) clone() *State {
 	n.notes = append([]string(nil), st.notes...)
 	n.allocs = append([]*Term(nil), st.allocs...)
 	n.effects = append([]string(nil), st.effects...)
+	n.sha1s = append([]shaApp(nil), st.sha1s...)
 	n.cur, n.granted, n.preempt = st.cur, st.granted, st.preempt
 	n.sched = append([]int(nil), st.sched...)
 	n.mus = map[string]MuState{}
@@ -1014,23 +1017,16 @@ func (ex *Exec) step(st *State, fr *Frame, instr ssa.Instruction) bool {
 			return false
 		}
 		key, val := ex.get(st, in.Key), ex.get(st, in.Value)
-		c := append([]Value(nil), st.heap[m.Obj].Val.(CellsV).C...)
-		found := false
-		for i := 0; i < len(c); i += 2 {
-			eq := ex.valEq(c[i], key)
-			if eq.IsTrue() {
-				c[i+1] = val
-				found = true
-				break
+		mobj := m.Obj
+		return ex.mapFind(st, st.heap[m.Obj].Val.(CellsV).C, key, func(s *State, idx int) {
+			c := append([]Value(nil), s.heap[mobj].Val.(CellsV).C...)
+			if idx >= 0 {
+				c[idx+1] = val
+			} else {
+				c = append(c, key, val)
 			}
-			if !eq.IsFalse() {
-				panic("symbolic map key comparison (prototype)")
-			}
-		}
-		if !found {
-			c = append(c, key, val)
-		}
-		st.heap[m.Obj] = &Obj{Val: CellsV{c}}
+			s.heap[mobj] = &Obj{Val: CellsV{c}}
+		})
 	case *ssa.Range:
 		switch x := ex.get(st, in.X).(type) {
 		case MapV:
@@ -1059,27 +1055,22 @@ func (ex *Exec) step(st *State, fr *Frame, instr ssa.Instruction) bool {
 		switch x := ex.get(st, in.X).(type) {
 		case MapV:
 			vt := in.X.Type().Underlying().(*types.Map).Elem()
-			var res Value = zeroValue(vt)
-			ok := False
+			var cells []Value
 			if x.Obj != 0 {
-				c := st.heap[x.Obj].Val.(CellsV).C
-				key := ex.get(st, in.Index)
-				for i := 0; i < len(c); i += 2 {
-					eq := ex.valEq(c[i], key)
-					if eq.IsTrue() {
-						res, ok = c[i+1], True
-						break
-					}
-					if !eq.IsFalse() {
-						panic("symbolic map key comparison (prototype)")
-					}
+				cells = st.heap[x.Obj].Val.(CellsV).C
+			}
+			return ex.mapFind(st, cells, ex.get(st, in.Index), func(s *State, idx int) {
+				var res Value = zeroValue(vt)
+				ok := False
+				if idx >= 0 {
+					res, ok = cells[idx+1], True
 				}
-			}
-			if in.CommaOk {
-				fr.env[in] = TupleV{res, ok}
-			} else {
-				fr.env[in] = res
-			}
+				if in.CommaOk {
+					s.top().env[in] = TupleV{res, ok}
+				} else {
+					s.top().env[in] = res
+				}
+			})
 		default:
 			panic(fmt.Sprintf("Lookup on %T", x))
 		}
@@ -1177,6 +1168,55 @@ func (ex *Exec) step(st *State, fr *Frame, instr ssa.Instruction) bool {
 		panic(fmt.Sprintf("unsupported instruction %T: %v in %s", instr, instr, fr.fn))
 	}
 	return true
+}
+
+// mapFind locates key among the (key,value) cells of a map. With concrete comparisons it calls
+// cont on st and returns true; when a comparison is symbolic it forks on equality with each
+// present key (st is then abandoned, all continuations are queued) and returns false.
+func (ex *Exec) mapFind(st *State, c []Value, key Value, cont func(s *State, idx int)) bool {
+	allConst := true
+	hit := -1
+	for i := 0; i < len(c); i += 2 {
+		eq := ex.valEq(c[i], key)
+		if eq.IsTrue() {
+			hit = i
+			break
+		}
+		if !eq.IsFalse() {
+			allConst = false
+			break
+		}
+	}
+	if allConst {
+		cont(st, hit)
+		return true
+	}
+	var neg []*Term
+	for i := 0; i < len(c); i += 2 {
+		eq := ex.valEq(c[i], key)
+		if eq.IsFalse() {
+			continue
+		}
+		cond := And(append(append([]*Term(nil), neg...), eq)...)
+		if !cond.IsFalse() && ex.feasible(st, cond) {
+			o := st.clone()
+			o.pc = append(o.pc, cond)
+			cont(o, i)
+			ex.work = append(ex.work, o)
+		}
+		if eq.IsTrue() {
+			return false
+		}
+		neg = append(neg, Not(eq))
+	}
+	cond := And(neg...)
+	if !cond.IsFalse() && ex.feasible(st, cond) {
+		o := st.clone()
+		o.pc = append(o.pc, cond)
+		cont(o, -1)
+		ex.work = append(ex.work, o)
+	}
+	return false
 }
 
 // splitIndex continues the execution once for every feasible concrete value k in [0,n)
@@ -1617,7 +1657,7 @@ func (ex *Exec) callValue(st *State, fv Value, args []Value, in *ssa.Call, pos t
 			ex.intr["CUT:"+name] = true
 			st.stubbed = true
 			if in != nil {
-				setRes(ex.havoc(st, in.Type(), name))
+				ex.havocResult(st, in, name)
 			}
 			return true
 		}
@@ -1632,13 +1672,7 @@ func (ex *Exec) callValue(st *State, fv Value, args []Value, in *ssa.Call, pos t
 			ex.intr["HAVOC:"+name] = true
 			st.imprecise = true
 			if in != nil {
-				setRes(ex.havoc(st, in.Type(), name))
-				// error-typed single result: also explore nil
-				if types.Identical(in.Type(), types.Universe.Lookup("error").Type()) {
-					o := st.clone()
-					o.top().env[in] = IfaceV{}
-					ex.work = append(ex.work, o)
-				}
+				ex.havocResult(st, in, name)
 			}
 			return true
 		}
@@ -1670,6 +1704,42 @@ func (ex *Exec) inlineable(fn *ssa.Function) bool {
 		return true
 	}
 	return false
+}
+
+// havocResult binds the result of a cut / unmodelled call: scalars are fresh, every
+// error-typed component forks into nil and non-nil.
+func (ex *Exec) havocResult(st *State, in *ssa.Call, why string) {
+	errT := types.Universe.Lookup("error").Type()
+	v := ex.havoc(st, in.Type(), why)
+	st.top().env[in] = v
+	if types.Identical(in.Type(), errT) {
+		o := st.clone()
+		o.top().env[in] = IfaceV{}
+		ex.work = append(ex.work, o)
+		return
+	}
+	if tv, ok := v.(TupleV); ok {
+		tup := in.Type().(*types.Tuple)
+		states := []*State{st}
+		for i := 0; i < tup.Len(); i++ {
+			if !types.Identical(tup.At(i).Type(), errT) {
+				continue
+			}
+			var more []*State
+			for _, s := range states {
+				o := s.clone()
+				cur := append(TupleV(nil), o.top().env[in].(TupleV)...)
+				cur[i] = IfaceV{}
+				o.top().env[in] = cur
+				more = append(more, o)
+			}
+			states = append(states, more...)
+		}
+		_ = tv
+		for _, s := range states[1:] {
+			ex.work = append(ex.work, s)
+		}
+	}
 }
 
 func (ex *Exec) havoc(st *State, t types.Type, why string) Value {
